@@ -285,7 +285,8 @@ class Circuit:
         if len(new_indices) != len(self._qubit_indices):
             raise ValueError("The number of indices does not match the length of self._qubit_indices")
 
-        qubits_in_use = self._qubit_indices
+        # Sorted: the i-th new index goes to the i-th smallest qubit index (the iteration order of a set is arbitrary)
+        qubits_in_use = sorted(self._qubit_indices)
         mapping = {i: j for i, j in zip(qubits_in_use, new_indices)}
         for g in self._gates:
             g.target = [mapping[ind] for ind in g.target]
